@@ -864,3 +864,70 @@ def rf41(run):
                       'identity for this opcode (floating point: (-0.0) + 0.0 is +0.0 and a signalling NaN is quieted; overflow '
                       'producers: the flags are lost)' % first, line=site['l'])
     run.min_instances(rule, 150)
+
+
+# ---------------------------------------------------------------------------------------------
+# RF48: the branch-reversal table
+# ---------------------------------------------------------------------------------------------
+
+def rf48(run):
+    import sys as _sys, os as _os
+    _sys.path.insert(0, _os.path.join(F.VERIF, 'spec'))
+    import opcodes as SPEC
+    rule = 'RF48'
+    run.rule(rule, 'MIR_reverse_branch_code over every opcode: a conditional branch is mapped to the branch with the negated relation of '
+                   'the same width, signedness and domain (BT<->BF, EQ<->NE, LT<->GE, LE<->GT, BO<->BNO); floating-point branches are '
+                   'reversible only for EQ/NE — !(a < b) is not a >= b when an operand is NaN; every other opcode maps to MIR_INSN_BOUND')
+    tu = run.tu('mir')
+    f = tu.func('MIR_reverse_branch_code')
+    run.functions_analysed.add(('mir', f.name))
+    me = MayEval(tu)
+    codes = tu.enum('MIR_insn_code_t')
+    byv = {}
+    for nm, v in codes:
+        byv.setdefault(v, nm)
+    bound = dict(codes)['MIR_INSN_BOUND']
+    NEG = {'==': '!=', '!=': '==', '<': '>=', '>=': '<', '<=': '>', '>': '<='}
+    n = 0
+    first = None
+    for nm, v in codes:
+        if v >= bound:
+            continue
+        rs = me.returns(F.kids(f.body), {'code': v})
+        if rs is None or len(rs) != 1:
+            raise F.AnalysisBroken('MIR_reverse_branch_code (%s) not evaluable: %s' % (nm, rs))
+        r = next(iter(rs))
+        rn = byv.get(r, str(r))
+        sp = SPEC.parse(nm[4:])
+        exp = None
+        if nm in ('MIR_BT', 'MIR_BF', 'MIR_BTS', 'MIR_BFS'):
+            exp = {'MIR_BT': 'MIR_BF', 'MIR_BF': 'MIR_BT', 'MIR_BTS': 'MIR_BFS', 'MIR_BFS': 'MIR_BTS'}[nm]
+        elif nm in ('MIR_BO', 'MIR_BNO', 'MIR_UBO', 'MIR_UBNO', 'MIR_PRBEQ', 'MIR_PRBNE'):
+            exp = {'MIR_BO': 'MIR_BNO', 'MIR_BNO': 'MIR_BO', 'MIR_UBO': 'MIR_UBNO', 'MIR_UBNO': 'MIR_UBO',
+                   'MIR_PRBEQ': 'MIR_PRBNE', 'MIR_PRBNE': 'MIR_PRBEQ'}[nm]
+        elif sp is not None and sp.kind == 'bcmp':
+            if sp.dom == 'i' or sp.op in ('==', '!='):
+                # the opcode with the same attributes and the negated relation
+                for nm2, v2 in codes:
+                    s2 = SPEC.parse(nm2[4:]) if nm2.startswith('MIR_') else None
+                    if s2 is not None and s2.kind == 'bcmp' and s2.dom == sp.dom and s2.width == sp.width and s2.op == NEG[sp.op] \
+                            and (s2.signed == sp.signed or sp.op in ('==', '!=')):
+                        exp = nm2
+                        break
+        # reversal is optional (a missing entry only loses an optimisation) but a present one must be right
+        ok = rn == 'MIR_INSN_BOUND' or (exp is not None and rn == exp)
+        n += 1
+        if rn != 'MIR_INSN_BOUND' or not ok:
+            run.ob(rule, (nm,), ok, {'opcode': nm, 'reversed to': rn, 'allowed': exp or 'none (MIR_INSN_BOUND)'})
+        else:
+            run.ob(rule, (nm,), ok)
+        if not ok and first is None:
+            first = (nm, rn, exp)
+    if first:
+        nm, rn, exp = first
+        sp = SPEC.parse(nm[4:])
+        why = 'an ordered floating-point comparison is false for NaN operands, and so is its "opposite": `%s L1; jmp L2; L1:` rewritten to `%s L2` ' \
+              'falls into the true arm for a NaN' % (nm[4:].lower(), rn[4:].lower()) if (sp is not None and sp.dom != 'i') else \
+            'the reversed branch must test the negated relation with the same width and signedness (%s)' % (exp or 'no reversal exists')
+        run.violation(rule, f, 'reversal of %s' % nm, 'MIR_reverse_branch_code maps %s to %s: %s' % (nm, rn, why), line=f.line)
+    run.min_instances(rule, 150)
